@@ -7,6 +7,7 @@ import XsVerif.Model.AccessTrace
 import XsVerif.Lemmas.Access
 import XsVerif.Lemmas.AccessCoding
 import XsVerif.Lemmas.AccessTrace
+import XsVerif.Lemmas.AccessRemote
 import XsVerif.Generated.C12
 
 namespace XsVerif.Props.C12
@@ -518,32 +519,62 @@ theorem scheme_prefixed_class (s rest : Bytes) (hs : SchemeOK s) (hloc : isLocal
 example : SchemeOK (bs "http") ∧ isLocalScheme ((bs "http").map lower) = false := by
   refine ⟨⟨⟨104, bs "ttp", by decide, by decide⟩, by decide⟩, by decide⟩
 
-/-- FULL STATEMENT (false for the code): `remoteUrl cwd base loc = some r → classify r = .remote`,
-    i.e. every location that `normalize_url` renders as a non-local URL is refused by
-    `access_control` in the modes that admit local files only.
-    Counterexample (finding C12-F4, replayed on the real code by the `newline-remote-base` family):
-    the relative location `a%0Ab` joined to the remote base `http://h/d/` is rendered with a raw
-    line feed, is classified neither local nor remote, and `access_control` lets it through under
-    'local' and — the prefix test against the remote base succeeding — under 'sandbox'. -/
-theorem remote_render_counterexample :
+/-- Every URL that `normalize_url` renders for a location that is not a local file has the shape
+    `scheme ':' rest` with a syntactically valid scheme that is not a local one — through `get_uri`,
+    `is_safe_url`, `is_encoded_url`, `decode_url`, `encode_url` and `urlunsplit`, for every location
+    and base. -/
+theorem remote_render_shape (cwd : Bytes) (base : Option Bytes) (loc r : Bytes)
+    (h : remoteUrl cwd base loc = some r) :
+    ∃ s rest, r = s ++ 58 :: rest ∧ SchemeOK s ∧ isLocalScheme (s.map lower) = false :=
+  XsVerif.Access.remoteUrl_shape cwd base loc r h
+
+/-- A REMOTE URL IS NEVER TAKEN FOR A LOCAL FILE (full statement; it was false before fix 600200c,
+    see `remote_render_newline_witness`).  For every location and base: the URL `r` that
+    `normalize_url` renders for a non-local result
+      * is refused as remote by `access_control` in 'local' and in 'sandbox' mode, whatever the
+        sandbox base (also below a REMOTE base);
+      * is admitted in 'remote' mode (never refused as local);
+      * has a non-local scheme for `urlsplit`, so `urlopen` never hands it to the file handler. -/
+theorem remote_render_refused (a : Allow) (ha : a = .loc ∨ a = .sandbox) (b : Option Bytes) (cwd : Bytes)
+    (base : Option Bytes) (loc r : Bytes) (h : remoteUrl cwd base loc = some r) :
+    accessControl a b (some r) = .blockedRemote ∧ accessControl .remote b (some r) = .ok ∧
+      isLocalScheme (urlsplit r).scheme = false := by
+  obtain ⟨s, rest, rfl, hs, hloc⟩ := XsVerif.Access.remoteUrl_shape cwd base loc r h
+  have hc := (XsVerif.Access.scheme_prefixed_class s rest hs hloc).1
+  refine ⟨local_modes_block_remote a ha b _ hc, ?_, ?_⟩
+  · simp [accessControl, isLocalUrl, hc]
+  · rw [urlsplit_scheme s rest hs]; exact hloc
+
+/-- The decision that the resource constructor model `resolveWith` takes for a non-local result
+    (a table on the mode, previously trusted) IS `access_control` applied to the rendered URL,
+    for every mode and whatever normalised base the check is given. -/
+theorem resolveWith_remote_is_access_control (a : Allow) (cwd : Bytes) (b bn : Option Bytes) (loc r s n : Bytes)
+    (j : Option Bytes) (hn : normalizeUrl cwd b loc = .remote s n j) (h : remoteUrl cwd b loc = some r) :
+    (resolveWith a cwd b loc).decision = some (accessControl a bn (some r)) := by
+  have h1 := remote_render_refused .loc (Or.inl rfl) bn cwd b loc r h
+  have h2 := remote_render_refused .sandbox (Or.inr rfl) bn cwd b loc r h
+  cases a
+  · simp [resolveWith, hn, accessControl]
+  · simp [resolveWith, hn, h1.2.1]
+  · simp [resolveWith, hn, h1.1]
+  · simp [resolveWith, hn, h2.1]
+  · simp [resolveWith, hn, accessControl]
+
+/-- Regression witness of finding C12-F4 (fixed by 600200c): the relative location `a%0Ab` joined to
+    the remote base `http://h/d/` is rendered with a RAW line feed and is classified neither local
+    nor remote (`is_remote_url` is False for any string with a newline) — the old test
+    `elif is_remote_url(url)` let it through; the current check refuses it in 'local' mode and, below
+    its own remote sandbox base, in 'sandbox' mode.  Replayed on the real code by the
+    `newline-remote-base` family. -/
+theorem remote_render_newline_witness :
     remoteUrl (bs "/r") (some (bs "http://h/d/")) (bs "a%0Ab") = some (bs "http://h/d/a\nb") ∧
     classify (bs "http://h/d/a\nb") = .neither ∧
-    accessControl .loc none (some (bs "http://h/d/a\nb")) = .ok ∧
-    accessControl .sandbox (some (bs "http://h/d/")) (some (bs "http://h/d/a\nb")) = .ok ∧
+    accessControl .loc none (some (bs "http://h/d/a\nb")) = .blockedRemote ∧
+    accessControl .sandbox (some (bs "http://h/d/")) (some (bs "http://h/d/a\nb")) = .blockedRemote ∧
     (resolveWith .loc (bs "/r") (some (bs "http://h/d/")) (bs "a%0Ab")).decision = some .blockedRemote := by
   decide +kernel
 
-/-- PARTIAL (guard: the rendered URL contains no line feed): a rendered URL with a valid non-local
-    scheme is refused as remote by `access_control` in 'local' and 'sandbox' mode, whatever the base
-    — in particular also when it lies below a REMOTE sandbox base. -/
-theorem remote_render_partial (a : Allow) (ha : a = .loc ∨ a = .sandbox) (b : Option Bytes)
-    (s rest : Bytes) (hs : SchemeOK s) (hloc : isLocalScheme (s.map lower) = false)
-    (h10 : (s ++ 58 :: rest).contains 10 = false) :
-    accessControl a b (some (s ++ 58 :: rest)) = .blockedRemote :=
-  local_modes_block_remote a ha b _ ((XsVerif.Access.scheme_prefixed_class s rest hs hloc).2 h10)
-
-example : accessControl .sandbox (some (bs "http://h/d/")) (some (bs "http://h/d/x.xsd")) = .blockedRemote := by
-  decide +kernel
+example : remoteUrl (bs "/r") none (bs "HTTP://h/a b") = some (bs "http://h/a%20b") := by decide +kernel
 
 /-! ## known defect of the call sites that pass no base URL (C12-F2 / C12-F3) -/
 
